@@ -301,6 +301,15 @@ def coq_eval(name, body, timeout=900):
     p = os.path.join(d, name + ".v")
     open(p, "w").write(body)
     rc, out, err = sh("timeout %d coqc %s cases/%s.v" % (timeout, COQ_ARGS, name), cwd=COQ, timeout=timeout + 30)
+    # throw-away: keep nothing but the source of a file that did not compile (disk space)
+    for ext in (".vo", ".vok", ".vos", ".glob"):
+        try: os.remove(os.path.join(d, name + ext))
+        except FileNotFoundError: pass
+    try: os.remove(os.path.join(d, "." + name + ".aux"))
+    except FileNotFoundError: pass
+    if rc == 0:
+        try: os.remove(p)
+        except FileNotFoundError: pass
     return rc, out + err
 
 CASE_HEADER = """From Coq Require Import Floats List ZArith Bool String.
